@@ -491,8 +491,8 @@ VAL_RATIOS = [0.1, 0.2, 0.25, 0.3, 1.0 / 3.0, 0.4, 0.5, 0.6, 0.7, 0.75]
 
 
 @st.composite
-def _problem(draw):
-    val = draw(st.booleans()) and draw(st.booleans())  # a quarter of the cases... plus below
+def _problem(draw, loss_type=None):
+    val = draw(st.sampled_from([False, False, True]))
     return {
         "R": draw(st.integers(3, 7)),
         "C": draw(st.integers(3, 7)),
@@ -502,7 +502,7 @@ def _problem(draw):
         "obj_type": draw(st.sampled_from(["complex", "pure_phase", "potential"])),
         "pad": [draw(st.integers(0, 3)), draw(st.integers(0, 3))],
         "hi": draw(st.booleans()),
-        "loss_type": draw(st.sampled_from(LOSS_TYPES)),
+        "loss_type": loss_type if loss_type is not None else draw(st.sampled_from(LOSS_TYPES)),
         "val_ratio": draw(st.sampled_from(VAL_RATIOS)) if val else 0.0,
         "val_mode": draw(st.sampled_from(["grid", "random"])),
         "seed": draw(SEEDS),
@@ -513,8 +513,8 @@ LEARN = [["object"], ["object", "probe"], ["object", "probe", "dataset"], ["obje
 
 
 @st.composite
-def invariance_cases(draw):
-    c = draw(_problem())
+def invariance_cases(draw, loss_type=None):
+    c = draw(_problem(loss_type))
     c["kind"] = "invariance"
     c["learn"] = draw(st.sampled_from(LEARN))
     return c
@@ -561,8 +561,9 @@ def search(ctx):
     # part 1, random larger sizes
     run("batcher", batcher_cases(), 1200, 12000)
     run("split", split_cases(), 400, 4000)
-    # part 2
-    run("invariance", invariance_cases(), 22, 120)
-    run("determinism", determinism_cases(), 30, 160)
+    # part 2 (the invariance budget is stratified over the loss types: each has its own scaling branch)
+    for lt in LOSS_TYPES:
+        run("invariance:" + lt, invariance_cases(lt), 8, 30)
+    run("determinism", determinism_cases(), 50, 200)
     for k, v in STATS.items():
         ctx.extra["max_err_over_tol: " + k] = round(v, 6)
